@@ -129,8 +129,8 @@ def node_tests(limit=None, symbolic=False, verbose=False):
             continue
         if any(a.dtype.kind in "iu" and a.size and (np.abs(a.astype(np.float64)).max() > 2**31) for a in list(feeds.values()) + wants):
             continue  # wrap-around cases are outside the claim
-        if any(a.dtype in (np.uint8, np.int8, np.uint16, np.int16) for a in wants):
-            continue  # narrow integer wrap/saturation is outside the claim
+        if any(a.dtype in (np.uint8, np.int8, np.uint16, np.int16) for a in wants) and not ops_used & {"QLinearConv"}:
+            continue  # narrow integer wrap/saturation is outside the claim (QLinearConv saturates by definition: encoded)
         try:
             model = ir.from_proto(mp)
             got = run_concrete(model, feeds, symbolic)
